@@ -771,6 +771,21 @@ func lmCheck(t vfkit.Fataler, c *lmCase, unit string, record bool) {
 			}
 		}
 	}
+	if v != nil && strings.HasPrefix(v.Signature, "twin-") {
+		// the allocator's choices depend on map order for some histories: a twin
+		// difference is believed only if it shows in every one of six more executions
+		for i := 0; i < 6 && v != nil; i++ {
+			var w *vfkit.Violation
+			func() {
+				defer func() { _ = recover() }()
+				w = (&lmExec{c: c}).run()
+			}()
+			if w == nil || w.Signature != v.Signature {
+				vfkit.For(v.Property).SelfCheckFailed()
+				v = nil
+			}
+		}
+	}
 	if v != nil {
 		c = lmMinimize(c, v)
 		vfkit.For(v.Property).Report(t, unit, v, c)
@@ -787,7 +802,23 @@ func lmMinimize(c *lmCase, v *vfkit.Violation) *lmCase {
 			defer func() { _ = recover() }()
 			w = (&lmExec{c: cand}).run()
 		}()
-		return w != nil && w.Property == v.Property && w.Signature == v.Signature
+		if w == nil || w.Property != v.Property || w.Signature != v.Signature {
+			return false
+		}
+		if strings.HasPrefix(v.Signature, "twin-") {
+			// keep only reductions on which the difference is still reproducible
+			for i := 0; i < 4; i++ {
+				var w2 *vfkit.Violation
+				func() {
+					defer func() { _ = recover() }()
+					w2 = (&lmExec{c: cand}).run()
+				}()
+				if w2 == nil || w2.Signature != v.Signature {
+					return false
+				}
+			}
+		}
+		return true
 	}
 	cur := *c
 	for changed := true; changed; {
